@@ -1394,9 +1394,12 @@ class BaseLoss(object):
         index_out = list()
         # locate the target indexes
         index_list = self._getTargetParamIndex()
+        # ordered by target parameter, then by observed state, both in the
+        # order they were supplied: the layout sens_to_grad / sens_to_jtj
+        # unpack and the order of the observed columns of y
         if isinstance(state_index, list):
-            for j in state_index:
-                for i in index_list:
+            for i in index_list:
+                for j in state_index:
                     # always ignore the first numState because they are
                     # outputs from the actual ode and not the sensitivities.
                     # Hence the +1
@@ -1406,7 +1409,7 @@ class BaseLoss(object):
             for i in index_list:
                 index_out.append(state_index + (i + 1) * self._num_state)
 
-        return np.sort(np.array(index_out)).tolist()
+        return index_out
 
     def _getTargetParamIndex(self):
         """
@@ -1438,8 +1441,8 @@ class BaseLoss(object):
         n_s = self._num_state
         n_p = self._num_param
         if isinstance(state_index, list):
-            for j in state_index:
-                for i in index_list:
+            for i in index_list:
+                for j in state_index:
                     # always ignore the first numState because they are outputs
                     # from the actual ode and not the sensitivities
                     index_out.append(j + (i + 1 + n_p)*n_s)
@@ -1448,7 +1451,7 @@ class BaseLoss(object):
             for i in index_list:
                 index_out.append(state_index + (i + 1 + n_p)*n_s)
 
-        return np.sort(np.array(index_out)).tolist()
+        return index_out
 
     def _getTargetStateIndex(self):
         """
@@ -1457,7 +1460,8 @@ class BaseLoss(object):
         if self._targetState is None:
             index_list = range(self._num_state)
         else:
-            index_list = [self._ode.get_state_index(i) for i in self._targetState]
+            # get_state_index returns a list, one index per name
+            index_list = self._ode.get_state_index(self._targetState)
 
         return index_list
 
